@@ -900,4 +900,9 @@ func TestC13(t *testing.T) {
 	forCases(2+n/300, 136, "t", func(i int, r *rng, id string) { c13Stall(r, id) })
 	forCases(3, 137, "k", func(i int, r *rng, id string) { c13Nacks(r, id) })
 	forCases(20+n/100, 138, "h", func(i int, r *rng, id string) { c13Handoff(r, id) })
+	// well-formed answers at awkward moments (late acknowledgements, the stream fallback answering first) must not
+	// leave a goroutine of the probe round behind
+	c19Prop = "C13"
+	forCases(n/3, 139, "q", func(i int, r *rng, id string) { probeBubble(t, id, func() { c19Probe(r, id) }) })
+	c19Prop = "C19"
 }
